@@ -22,6 +22,9 @@ func init() { register("C10", checkC10) }
 var c10Phases = []string{"spin", "sleep", "read", "futex", "spawn"}
 
 func runChildJSON(ctxTimeout time.Duration, unpriv bool, env []string, sub string, in any, out any) (sig syscall.Signal, exit int, stderr string, err error) {
+	if tooManyHung() {
+		return 0, -1, "", fmt.Errorf("not started: too many children hung before")
+	}
 	self, _ := os.Executable()
 	if unpriv {
 		self = publicSelf()
@@ -39,6 +42,9 @@ func runChildJSON(ctxTimeout time.Duration, unpriv bool, env []string, sub strin
 		cmd.SysProcAttr.Credential = &syscall.Credential{Uid: 65534, Gid: 65534}
 	}
 	rerr := cmd.Run()
+	if cctx.Err() != nil {
+		atomic.AddInt64(&childTimeouts, 1)
+	}
 	if ee, ok := rerr.(*exec.ExitError); ok {
 		if ws, ok := ee.Sys().(syscall.WaitStatus); ok {
 			if ws.Signaled() {
@@ -154,7 +160,11 @@ func checkC10(tier, replay string) int {
 		if sc.LoaderMain {
 			env = append(env, "VERIF_LOCK_MAIN=1")
 		}
-		sig, exit, se, err := runChildJSON(300*time.Second, false, env, "tsync", sc, &rep)
+		limit := 40 * time.Second
+		if len(sc.Phases) > 8 {
+			limit = 150 * time.Second
+		}
+		sig, exit, se, err := runChildJSON(limit, false, env, "tsync", sc, &rep)
 		atomic.AddInt64(&children, 1)
 		if err != nil || sig != 0 || exit != 0 {
 			ctx.Flaky()
